@@ -41,8 +41,17 @@ func runC03(c *Ctx) {
 	rulePublishedMaps(c, p, "C03.P")
 	c.Rule("C03.T", "declared-trailer names are tokenised on ',' before they are used as keys", 3)
 	ruleTrailerTokenised(c, p, "C03.T")
-	c.Rule("C03.X", "1xx interim responses do not latch / are not published as final; final statuses do latch", 6)
+	c.Rule("C03.X", "1xx interim responses do not latch / are not published as final; final statuses do latch; a final status after an interim one is still forwarded", 9)
 	ruleInterimNoLatch(c, p, "C03.X")
+	ruleInterimThenFinal(c, p, "C03.X")
+	c.Rule("C03.R", "a retried upload of the response restarts at the first byte through the refusing rewind (= C06.S)", 3)
+	if f := c.need(p, "C03.R", "agent/utils.postResponseWithRetries"); f != nil {
+		if do := c.UniqueCall("C03.R", p, f, false, "(*net/http.Client).Do"); do != nil {
+			c06Rewind(c, p, "C03.R", f, do)
+		}
+	}
+	c.Rule("C03.M", "response bytes live in call-owned buffers (no pooled memory on the response path)", 1)
+	rulePooledMemory(c, p, "C03.M", "agent/utils", "server", "agent")
 	c.Rule("C03.H", "hop-by-hop tables exact; every response-side header/trailer copy guarded by the predicate on the same key", 14)
 	ruleHopTables(c, p, "C03.H")
 	ruleHopGuardsResponse(c, p, "C03.H")
